@@ -146,7 +146,14 @@ def _get_ranges(headervalue, content_length):
             # Negative subscript (last N bytes)
             # Prevent duplicate ranges. See Issue #59
             # (at most the whole entity)
-            start = max(content_length - int(stop), 0)
+            suffix = int(stop)
+            if suffix < 0:
+                # "--5" is not a byte-range-spec: see rfc quote above.
+                return None
+            if suffix == 0 or content_length == 0:
+                # nothing can satisfy a zero-length suffix
+                continue
+            start = max(content_length - suffix, 0)
             if (start, content_length) not in result:
                 result.append((start, content_length))
 
